@@ -113,11 +113,21 @@ pub fn run(seed: u64, tier: &str, out: &mut Out) {
         let calls_at_removal = spy.calls();
         let cc = drive(pb, &c, &xs);
         let calls_after = spy.calls();
+        // (d) hidden explicitly while its MultiProgress is hidden too; the MultiProgress then gets a visible target: the bar stays silent
+        let spy2 = Recorder::new(c.h, c.w, false);
+        let mp2 = MultiProgress::with_draw_target(ProgressDrawTarget::hidden());
+        let pb2 = mp2.add(make(&c, ProgressDrawTarget::hidden()));
+        pb2.set_draw_target(ProgressDrawTarget::hidden());
+        mp2.set_draw_target(ProgressDrawTarget::term_like(Box::new(spy2.clone())));
+        let calls2_before = spy2.calls();
+        let dd = drive(pb2, &c, &xs);
+        let calls2_after = spy2.calls();
         // the extra tick before the removal is not part of the history: getters are unaffected by it
-        for (name, t) in [("hidden-target", &a), ("hidden-multi", &b), ("removed", &cc)] {
+        for (name, t) in [("hidden-target", &a), ("hidden-multi", &b), ("removed", &cc), ("hidden-then-multi-shown", &dd)] {
             if *t != visible { let k = t.iter().zip(visible.iter()).position(|(x, y)| x != y).unwrap_or(0); verdict = format!("FAIL state-differs kind={name} step={k} hidden={} visible={}", t[k], visible[k]); break; }
         }
         if verdict == "ok" && calls_after != calls_at_removal { verdict = format!("FAIL terminal-call-after-removal {} calls", calls_after - calls_at_removal); }
+        if verdict == "ok" && calls2_after != calls2_before { verdict = format!("FAIL terminal-call-by-hidden-bar {} calls on the terminal its former MultiProgress was given", calls2_after - calls2_before); }
         if verdict == "ok" {
             match child_lines.get(i) {
                 None => verdict = "FAIL non-tty-child-missing-line".into(),
